@@ -294,12 +294,19 @@ def boundary_values(rnd, spec, name, wtype):
     if wtype == 'longstr':
         return [gv.rstr_bytes(rnd, n, a)
                 for n in (0, 1, 255, 256, 65535, 65536, 70000)
-                for a in ('ascii', 'mixed')] + list(_magic().strs) \
+                for a in ('ascii', 'mixed')] + [
+                    # method frames at and above the default frame-max (the
+                    # codec itself knows no limit)
+                    gv.rstr_bytes(rnd, n, 'ascii')
+                    for n in (131050, 131064, 131072, 131073, 200000)] \
+            + list(_magic().strs) \
             + [gv.rstr_bytes(rnd, n, 'ascii') for n in _magic().lengths
                if n <= 5000]
     if wtype == 'table':
         return [None, {}, {'': None}, gv.table(rnd, 0, 3),
-                gv.wide_table(rnd, 40), {'d': gv.deep_chain(rnd, 8)}]
+                gv.wide_table(rnd, 40), {'d': gv.deep_chain(rnd, 8)},
+                {'big': gv.rstr_bytes(rnd, 131060, 'ascii')},
+                {'k%05d' % i: 'v' * 20 for i in range(5000)}]
     if wtype == 'timestamp':
         return [gv.rdatetime(rnd, s) for s in (0, 1, 2**31, 2**32 - 1)]
     raise ValueError(wtype)
